@@ -48,6 +48,8 @@ def check(prog: Program, tier: str) -> Result:
             res.bad("R5.2", fn.loc(stmt), fq, text[:160], f"{f.what}: module-level object {f.origin[7:]} is mutated at run time; later calls depend on earlier ones")
         else:
             res.ok("R5.1", fn.loc(stmt), fq, text[:160], what, trivial=not _touches_param(own, fn))
+    # ---------------- R5.5 memoised functions do not read the environment
+    _r5_5(prog, res)
     # ---------------- R5.4 identity across caches
     seen_id = set()
     for f in own.identity_findings:
@@ -169,10 +171,90 @@ def _r5_3(prog: Program, res: Result) -> None:
     res.analysed["global_state_writes"] = n
 
 
+ENV_READS = {
+    # dotted callee (or method name after "."): what of the environment it reads
+    "open": "the file system", "__import__": "the import system", "importlib.import_module": "the import system",
+    "importlib.util.find_spec": "the import system / sys.path", "os.getcwd": "the working directory", "os.listdir": "the file system",
+    "os.environ.get": "environment variables", "os.getenv": "environment variables", "pathlib.Path.cwd": "the working directory", "Path.cwd": "the working directory",
+}
+ENV_METHODS = {"open": "the file system", "read_text": "the file system", "read_bytes": "the file system", "exists": "the file system",
+               "is_file": "the file system", "is_dir": "the file system", "iterdir": "the file system", "glob": "the file system", "rglob": "the file system",
+               "absolute": "the working directory", "resolve": "the file system"}
+
+
+def _r5_5(prog: Program, res: Result) -> None:
+    """A memoised function (functools.lru_cache / cache) answers later calls from its table.  If its result depends on
+    anything but its arguments - files, the import system, the working directory, sys.path, environment variables - a
+    later call with the same arguments returns what was true EARLIER: the result of formatting then depends on the
+    history of the process.  Effect analysis over the call graph: environment reads (table ENV_READS / ENV_METHODS,
+    sys.path / os.environ mentions) in the function or in any repository function it can reach."""
+    reads: Dict[Tuple[str, str], List[Tuple[ast.AST, str]]] = {}
+    for f in prog.funcs.values():
+        out = []
+        for c in prog.calls_in(f):
+            d = prog.dotted(c.func) or ""
+            if d in ENV_READS:
+                out.append((c, f"{d}() reads {ENV_READS[d]}"))
+            elif isinstance(c.func, ast.Attribute) and c.func.attr in ENV_METHODS and not d.startswith(("re.", "str.", "core.", "ast.")):
+                r = prog.resolve_call(c.func, f.mod, f)
+                if not (r and r[0] in ("fn", "cls")):
+                    recv = norm(c.func.value)
+                    if c.func.attr in ("open", "read_text", "read_bytes", "exists", "is_file", "is_dir", "iterdir", "glob", "rglob") or "Path" in recv or "path" in recv.lower():
+                        out.append((c, f"{short(c, 40)} reads {ENV_METHODS[c.func.attr]}"))
+        for n in walk_own(f.node):
+            if isinstance(n, ast.Attribute) and norm(n) in ("sys.path", "os.environ"):
+                out.append((n, f"{norm(n)} is process-wide state"))
+        reads[f.key] = out
+    # transitive closure over resolved repository calls
+    callees: Dict[Tuple[str, str], Set[Tuple[str, str]]] = {}
+    for f in prog.funcs.values():
+        cs = set()
+        for c in prog.calls_in(f):
+            r = prog.resolve_call(c.func, f.mod, f)
+            if r and r[0] == "fn":
+                cs.add(r[1].key)
+        callees[f.key] = cs
+    # one named exemption: configuration that no call of the tool ever writes (the property quantifies over histories of
+    # CALLS; the formatter rewrites python sources, never pyproject.toml)
+    READS_CONFIG_ONLY = {("core", "parse_line_length_from_pyproject_toml"): "reads pyproject.toml, which no entry point of the tool writes: earlier calls cannot change it"}
+    n = 0
+    for f in sorted(prog.funcs.values(), key=lambda x: x.fq):
+        if not f.is_cached:
+            continue
+        n += 1
+        if f.key in READS_CONFIG_ONLY and "pyproject.toml" in norm(f.node):
+            res.ok("R5.5", f.loc(), f.fq, f"memoised {f.name}()", READS_CONFIG_ONLY[f.key])
+            continue
+        seen, todo, hit = set(), [f.key], None
+        while todo and hit is None:
+            k = todo.pop()
+            if k in seen:
+                continue
+            seen.add(k)
+            if reads.get(k):
+                g = prog.funcs[k]
+                node, what = reads[k][0]
+                hit = (g, node, what)
+            todo.extend(callees.get(k, ()))
+        if hit is None:
+            res.ok("R5.5", f.loc(), f.fq, f"memoised {f.name}()", f"no environment read in {len(seen)} reachable function(s): the result depends on the arguments only")
+        else:
+            g, node, what = hit
+            via = "" if g is f else f" (through {g.fq})"
+            res.bad("R5.5", f.loc(), f.fq, f"memoised {f.name}()",
+                    f"{what} at {g.loc(node)}{via}: the memoised result outlives the state it was computed from, a later call with the same arguments "
+                    "returns the earlier answer and the output of formatting depends on what the process did before")
+    res.analysed["memoised_functions"] = n
+
+
 # ---------------------------------------------------------------------------------------------- self-test
 from ..selftest import Variant  # noqa: E402
 
 VARIANTS = [
+    Variant("module-file-lookup-memoised", "FIRE", "tracing",
+            "def _trace_module_source_file(module: str) -> str | None:", "@functools.lru_cache(maxsize=1000)\ndef _trace_module_source_file(module: str) -> str | None:", "R5.5"),
+    Variant("trace-origin-not-memoised", "SILENT", "tracing",
+            "@functools.lru_cache(maxsize=100_000)\ndef trace_origin(", "def trace_origin("),
     Variant("fix-missing-locations-on-template-parts", "FIRE", "performance",
             "            replacement = ast.Call(func=func, args=[value] + args, keywords=keywords)\n            yield node, replacement\n",
             "            replacement = ast.Call(func=func, args=[value] + args, keywords=keywords)\n            yield node, ast.fix_missing_locations(ast.copy_location(replacement, node))\n", "R5.1"),
